@@ -603,6 +603,9 @@ fn corpus(seed: u64, first: usize, count: usize, out: &Path, exclude: &str) -> R
             }
         }
     }
+    // further thorough batches: other windows of the model-program generators, no repository theories
+    let model_first: usize = std::env::var("VGEN_MODEL_FIRST").ok().and_then(|s| s.parse().ok()).unwrap_or(0);
+    let skip_repo = std::env::var("VGEN_SKIP_REPO").is_ok();
     // the repository's own test theories, as far as the fragment parser covers them
     let repo = std::env::var("VERIF_REPO").unwrap_or_else(|_| "/repo".into());
     let max_bytes: usize = std::env::var("VGEN_REPO_MAX_BYTES").ok().and_then(|s| s.parse().ok()).unwrap_or(3000);
@@ -610,6 +613,9 @@ fn corpus(seed: u64, first: usize, count: usize, out: &Path, exclude: &str) -> R
         .map(|rd| rd.filter_map(|e| e.ok()).map(|e| e.path()).collect())
         .unwrap_or_default();
     files.sort();
+    if skip_repo {
+        files.clear();
+    }
     let mut skipped: Vec<String> = Vec::new();
     for f in files {
         if f.extension().map(|x| x != "eql").unwrap_or(true) {
@@ -659,7 +665,7 @@ fn corpus(seed: u64, first: usize, count: usize, out: &Path, exclude: &str) -> R
     }
     diagnostics.push(format!("repository theories skipped: {}", skipped.join("; ")));
     let n_models: usize = std::env::var("VGEN_MODELS").ok().and_then(|s| s.parse().ok()).unwrap_or(count / 4);
-    for i in 0..n_models * 2 {
+    for i in model_first..model_first + n_models * 2 {
         if items.iter().filter(|it| it.origin.starts_with("genmodel")).count() >= n_models {
             break;
         }
@@ -687,7 +693,7 @@ fn corpus(seed: u64, first: usize, count: usize, out: &Path, exclude: &str) -> R
         }
     }
     let n_members: usize = std::env::var("VGEN_MEMBERS").ok().and_then(|s| s.parse().ok()).unwrap_or(count / 4);
-    for i in 0..n_members * 2 {
+    for i in model_first..model_first + n_members * 2 {
         if items.iter().filter(|it| it.origin.starts_with("genmember")).count() >= n_members {
             break;
         }
